@@ -17,6 +17,11 @@ ASSUMPTIONS = ["single thread (threads are C17)", "a behaviour is the finite unf
 
 def gen_case(rng):
     nt = rng.choice([1, 1, 2, 2, 3])
+    # via: which event carries the emissions - an AST event through emit_event's loop, or (one tracer only: system events are not threaded
+    # across the stack, finding C04-sys-events-across-stack) the `call` event of a function of an exec'd sandbox, through tracer._sys_tracer
+    via = "call" if rng.random() < 0.25 else "assign"
+    if via == "call":
+        nt = 1
     profile = rng.choice(["plain", "plain", "mixed", "mixed", "optin", "escape", "escape"])
     # "escape": propagated handler exceptions leave nested emissions / regions and are caught further out, by a running handler or at top level
     escape = profile == "escape"
@@ -68,7 +73,12 @@ def gen_case(rng):
     if escape:
         budget[0] += 8
     tops = [top() for _ in range(rng.choice([1, 2, 3] if not escape else [2, 3, 4]))]
-    return {"tracers": tracers, "tops": tops, "worker": rng.random() < 0.3}
+    if via == "call":
+        for t in tracers:
+            t["propagate"] = False        # an exception leaving a system-trace handler makes CPython drop the trace function (C06-sys-handler-exception-uninstalls)
+        # ctl (Skip / SkipAll) on a 'call' event decides about the frame's tracing, which the harness does not observe: same delivery rule
+        return {"tracers": tracers, "tops": tops, "worker": False, "via": "call"}
+    return {"tracers": tracers, "tops": tops, "worker": rng.random() < 0.3, "via": "assign"}
 
 
 def count_ems(n):
